@@ -63,14 +63,14 @@ def _child_main(rd, wr, clock):
             if msg[0] == "exit":
                 break
             if msg[0] == "chunk":
-                func, batch = pickle.loads(msg[1])          # ONE unpickle per chunk
+                star, (func, batch) = pickle.loads(msg[1])  # ONE unpickle per chunk
                 tasks = list(batch)
                 wr.send(("loaded", len(tasks)))
             elif msg[0] == "go":
                 clock.now = msg[1]
                 args = tasks.pop(0)
                 try:
-                    func(*args)
+                    func(*args) if star else func(args)
                     clock.now += msg[2]
                     wr.send(("done", True, None))
                 except BaseException as e:                    # noqa
@@ -175,7 +175,24 @@ class SimPool:
             w.close()
         self.workers = []
 
+    def map(self, func, iterable, chunksize=None):
+        return self._map(func, iterable, chunksize, star=False)
+
+    def imap(self, func, iterable, chunksize=1):
+        return iter(self._map(func, iterable, chunksize, star=False))
+
+    imap_unordered = imap
+
     def starmap(self, func, iterable, chunksize=None):
+        return self._map(func, iterable, chunksize, star=True)
+
+    def close(self):
+        pass
+
+    def join(self):
+        pass
+
+    def _map(self, func, iterable, chunksize, star):
         if not hasattr(iterable, "__len__"):
             iterable = list(iterable)
         if chunksize is None:
@@ -186,7 +203,7 @@ class SimPool:
             chunksize = 0
         batches = list(RealPool._get_tasks(func, iterable, chunksize))   # the real chunking code
         self.chunks = [len(b[1]) for b in batches]
-        queue = [(i, pickle.dumps(b)) for i, b in enumerate(batches)]     # one pickle per chunk
+        queue = [(i, pickle.dumps((star, b))) for i, b in enumerate(batches)]     # one pickle per chunk
         self.assignment = [None] * len(batches)
         step = 0
         while queue or any(w.remaining for w in self.workers):
